@@ -296,7 +296,8 @@ def try_call(fn):
 def sub_cond(f, k):
     s = f["subs"][k]
     frac = any(q % IU for q in list(s["lo"]) + list(s["hi"]))
-    return f"{f['rtag']}-region-{s['tag']}-sub{'-frac' if frac else ''}"
+    mixed = len({t["tag"] for t in f["subs"]}) > 1  # subregions of one mesh with different corner types
+    return f"{f['rtag']}-region-{s['tag']}-sub{'-frac' if frac else ''}{'-mixed-sub-types' if mixed else ''}"
 
 
 def raise_cond(f):
